@@ -110,6 +110,11 @@ HTML_RAW = ['<p> a  b </p>', '<b>x</b>   <i>y</i>', 'text   &amp; more', '<p>a</
 SVG_DOC = ['<svg><rect x="10.0" y="0"/></svg>', '<svg viewBox="0 0 10 10"><path d="M 10 10 L 20 20"/></svg>',
            '<svg><style>a { color : red }</style><g/></svg>', '<svg><rect style="fill : red"/></svg>',
            '<svg width="100px"><text>a &amp; b</text></svg>']
+# svg documents that carry their namespace (inline mode drops it, a data: URI or standalone svg must keep it) / a literal +
+SVG_NS = ['<svg xmlns="http://www.w3.org/2000/svg"><rect x="10.0" y="0"/></svg>',
+          '<svg xmlns="http://www.w3.org/2000/svg" viewBox="0 0 10 10"><path d="M 10 10 L 20 20"/></svg>',
+          '<svg xmlns="http://www.w3.org/2000/svg"><text>a + b</text>   <g/>   </svg>',
+          '<svg xmlns="http://www.w3.org/2000/svg"><text x="1">1+1</text>      </svg>']
 MATH_DOC = ['<math><mi> x </mi><mo>+</mo></math>', '<math><mrow><mn>1</mn></mrow></math>']
 JSON_RAW = ['{ "a" : 1 , "b" : [ 1 , 2 ] }', '{ "@context" : "https://schema.org" , "n" : 1.0 }']
 TEMPLATE_RAW = ['<p>  {{ x }}  </p>', '<div class="a">  b </div>']
@@ -145,9 +150,9 @@ def payloads_for(kind, typ, mt, served):
     if kind in ('dataUriAttr', 'cssDataUri'):
         m = mt.split(';')[0]
         if m == 'image/svg+xml':
-            return SVG_DOC + ['<svg>  <a b="c"/>    #%&\' </svg>']
+            return SVG_DOC + SVG_NS + SVG_NS + ['<svg>  <a b="c"/>    #%&\' </svg>']
         if m == 'text/css':
-            return [p + '          ' for p in CSS_RAW]
+            return [p + '          ' for p in CSS_RAW] + ['a + b { color : red }          ', 'a{width:calc( 1px + 2px )}          ']
         return PLAIN + (BINARY if served != 'real' else [])
     if kind == 'svgStyleText':
         return CSS_SVGTEXT
@@ -211,6 +216,16 @@ def predict(regs, mime):
     return None
 
 
+def inline_then_uri(shapes):
+    seen = False
+    for s in shapes:
+        if s[0] == 'svg':
+            seen = True
+        elif seen and s[0] == 'dataUriAttr' and lat(s[2]).startswith('image/svg+xml'):
+            return True
+    return False
+
+
 def leak_shape(shapes):
     for a, b in zip(shapes, shapes[1:]):
         if a[0] in ('script', 'style', 'iframe') and a[1] != [0] and a[3] != 'text' and \
@@ -234,6 +249,9 @@ def make_reg(rnd, lit, pat, beh):
 
 def make_case(ctx, hostkind, regcodes, shapes, menu, extra_regs=0, opts=False):
     rnd = ctx.rnd
+    warm = hostkind == 'csswarm'
+    if warm:
+        hostkind = 'css'
     regs = []
     for code in regcodes:
         t, beh = code // 10, code % 10
@@ -242,6 +260,12 @@ def make_case(ctx, hostkind, regcodes, shapes, menu, extra_regs=0, opts=False):
     for _ in range(extra_regs):
         lit, pat = rnd.choice(EXTRA_REGS)
         regs.insert(rnd.randint(0, len(regs)), make_reg(rnd, lit, pat, 1 if rnd.random() < 0.15 else 0))
+    if warm or inline_then_uri(shapes):
+        # an inline svg element before an svg data: URI (same document, or an earlier document on the same registry):
+        # the registered svg minifier is the real one (one shared value per registration)
+        for r in regs:
+            if r['pat'] == 0 and lat(r['lit']) == 'image/svg+xml' and r['beh'] == 'stub' and rnd.random() < 0.8:
+                r['beh'], r['real'] = 'real', 'svg'
     # Excluded constructs (known findings): with a failing minifier in the registry the host contains no whitespace
     # run with a newline and no encoded newline before the failing slot (the error position is computed on the
     # input buffer after earlier parts of it were rewritten in place)
@@ -275,7 +299,7 @@ def make_case(ctx, hostkind, regcodes, shapes, menu, extra_regs=0, opts=False):
                 if kind in ('dataUriAttr', 'cssDataUri'):
                     cands = [c for c in cands if '\n' not in c and '\r' not in c]
             payload = vary(rnd, rnd.choice(cands))
-        enc = rnd.choice(['pct', 'b64'])
+        enc = rnd.choice(['pct', 'b64', 'pctplus'] if '+' in payload else ['pct', 'b64'])
         quote = rnd.choice(['dq', 'sq'])
         if kind == 'cssDataUri':
             quote = rnd.choice(['dq', 'sq', 'none'])
@@ -289,10 +313,22 @@ def make_case(ctx, hostkind, regcodes, shapes, menu, extra_regs=0, opts=False):
         o = rnd.randint(1, 31)
     if usetmpl and hostkind == 'html':
         o |= 32                   # TemplateDelims {{ }}
-    return dict(host=hostkind, opts=o, regs=regs, parts=parts)
+    c = dict(host=hostkind, opts=o, regs=regs, parts=parts)
+    if warm:
+        c['warmhost'] = 'html'
+        c['warmparts'] = [dict(lit=B('<p>x')), dict(kind='svg', hastype=False, type=[], payload=B(rnd.choice(SVG_DOC + SVG_NS)), mt=[],
+                                                   enc='pct', quote='dq', attrs=[], tmpl=False), dict(lit=B(''))]
+    return c
 
 
 def ident(c):
+    d = _ident(c)
+    if c.get('warmhost'):
+        d['warm'] = _ident(dict(host=c['warmhost'], opts=0, regs=[], parts=c['warmparts']))['parts']
+    return d
+
+
+def _ident(c):
     return dict(host=c['host'], opts=c['opts'],
                 regs=[[r['k'], lat(r['lit']), r['pat'], r['beh'], r['real']] for r in c['regs']],
                 parts=[[lat(p['lit'])] if 'kind' not in p else
@@ -302,6 +338,14 @@ def ident(c):
 
 
 def from_ident(c):
+    d = _from_ident(c)
+    if c.get('warm'):
+        d['warmhost'] = 'html'
+        d['warmparts'] = _from_ident(dict(host='html', opts=0, regs=[], parts=c['warm']))['parts']
+    return d
+
+
+def _from_ident(c):
     return dict(host=c['host'], opts=c['opts'],
                 regs=[dict(k=r[0], lit=B(r[1]), pat=r[2], beh=r[3], real=r[4]) for r in c['regs']],
                 parts=[dict(lit=B(p[0])) if len(p) == 1 else
@@ -353,8 +397,8 @@ def describe(line, whys):
         out.append(text)
     calls = ['sid%d(%r)->%r%s' % (c['sid'], lat(c['payload'])[:60], lat(c['out'])[:60], ' FAILED' if c['fail'] else '')
              for c in e['calls'] if c['depth'] == 0]
-    return '%s host, registry [%s], input %r -> output %r, err=%s %s; nested calls %s: %s' % (
-        e['host'], ', '.join(regs), lat(e['input'])[:300], lat(e['output'])[:300], e['err']['kind'],
+    return '%s host%s, registry [%s], input %r -> output %r, err=%s %s; nested calls %s: %s' % (
+        e['host'], (' (after %r on the same registry)' % lat(e['warm'])[:120]) if e.get('warm') else '', ', '.join(regs), lat(e['input'])[:300], lat(e['output'])[:300], e['err']['kind'],
         (e['err']['line'], e['err']['col']) if e['err']['kind'] == 'parse' else '', calls, ' | '.join(out))
 
 
@@ -386,9 +430,11 @@ def run(ctx):
 
     # "typed raw element whose text is never consumed (empty or template body), then an untyped raw element":
     # every enumerated run of that shape is replayed, the rest is sampled within the budget
-    leak = [v for v in runs if leak_shape(v[3])]
-    rest = [v for v in runs if not leak_shape(v[3])]
-    ctx.coverage['design_runs_typed_unconsumed_then_untyped'] = len(leak)
+    prio = lambda v: leak_shape(v[3]) or v[1] == 'csswarm' or inline_then_uri(v[3])
+    leak = [v for v in runs if prio(v)]
+    rest = [v for v in runs if not prio(v)]
+    ctx.coverage['design_runs_inline_svg_then_svg_uri'] = sum(1 for v in runs if v[1] == 'csswarm' or inline_then_uri(v[3]))
+    ctx.coverage['design_runs_typed_unconsumed_then_untyped'] = sum(1 for v in runs if leak_shape(v[3]))
     budget = 7000 if quick else 120000
     if len(leak) > budget // 2:
         leak = rnd.sample(leak, budget // 2)
@@ -401,7 +447,7 @@ def run(ctx):
         if not shapes:
             continue
         cases.append(make_case(ctx, hk, regcodes, shapes, menu, extra_regs=rnd.choice([0, 0, 1, 2]), opts=True))
-        if leak_shape(shapes) or rnd.random() < (0.3 if quick else 0.5):
+        if leak_shape(shapes) or hk == 'csswarm' or inline_then_uri(shapes) or rnd.random() < (0.3 if quick else 0.5):
             cases.append(make_case(ctx, hk, regcodes, shapes, menu, extra_regs=rnd.choice([0, 1, 3]), opts=True))
     for v in sims:
         _, hk, regcodes, shapes = v
@@ -432,7 +478,7 @@ def run(ctx):
         ctx.coverage['rejections_reproduced'] = reproduced
 
     # evidence
-    nslots = ncalls = nfail = nabsent = nleak = nunconsumed = 0
+    nslots = ncalls = nfail = nabsent = nleak = nunconsumed = nwarm = nplus = 0
     nontrivial = set()
     samples = []
     kinds = {}
@@ -447,8 +493,13 @@ def run(ctx):
                     b['kind'] in ('script', 'style', 'iframe') and not b['hastype'] and b['payload'] and not b['tmpl']:
                 nleak += 1
                 break
+        if e.get('warm'):
+            nwarm += 1
         for s, o in zip(e['slots'], e['outslots']):
             nslots += 1
+            raw = bytes(s['raw'])
+            if b',' in raw and b';base64,' not in raw and b'+' in raw.split(b',', 1)[1] and b'+' in bytes(s['mt']):
+                nplus += 1
             if s['tmpl'] or (s['kind'] in ('script', 'style', 'iframe') and not s['payload']):
                 nunconsumed += 1
             kinds[s['kind']] = kinds.get(s['kind'], 0) + 1
@@ -469,6 +520,8 @@ def run(ctx):
         slots_unchanged=nabsent,
         slots_never_consumed=nunconsumed,
         cases_typed_unconsumed_then_untyped=nleak,
+        cases_after_earlier_document_on_same_registry=nwarm,
+        data_uri_slots_plus_in_type_and_literal_plus_in_payload=nplus,
         slots_by_kind=kinds,
         distinct_nontrivial=len(nontrivial),
         rule='a case is (host kind, registry configuration, sequence of literal parts and embedded slots with kind, type '
